@@ -40,6 +40,13 @@ def c06(cx):
     lea_glue.apply(cx, ["R-CHANNEL", "R-ADVANCE-EVIDENCE"])
 
 
+@prop("C09", "LEA: R-CKPT (checkpoint typestate on every path and through every live-checkpoint region: no "
+             "checkpoint() while one is live, owners always resolve it, owners are entered with one) so that no "
+             "stale rollback target survives; R-SPEC-PURITY and R-ERR-PAIR are listed in the evidence when built.")
+def c09(cx):
+    lea_glue.apply(cx, ["R-CKPT", "R-ERR-PAIR", "R-SPEC-PURITY"])
+
+
 def run(cx):
     fn, text = PROPS[cx.pid]
     fn(cx)
